@@ -34,7 +34,7 @@ U24(n) == <<n \div 65536, (n \div 256) % 256, n % 256>>
 SidsStream == {<<0, 0, 0, 1>>, <<0, 0, 0, 2>>, <<127, 255, 255, 255>>, <<0, 1, 0, 0>>}
 Sid0 == <<0, 0, 0, 0>>
 U31s == {<<0, 0, 0, 1>>, <<0, 0, 1, 244>>, <<127, 255, 255, 255>>}               \* positive 31-bit values
-ReqNs == {<<0, 0, 0, 1>>, <<0, 0, 0, 5>>, <<127, 255, 255, 255>>}
+ReqNs == {<<0, 0, 0, 1>>, <<0, 0, 0, 5>>, <<127, 255, 255, 255>>, <<128, 0, 0, 0>>, <<255, 255, 255, 255>>}    \* the field is 32 bits wide on the wire and in the codec
 U63s == {<<0, 0, 0, 0, 0, 0, 0, 0>>, <<0, 0, 0, 0, 0, 0, 0, 1>>, <<127, 255, 255, 255, 255, 255, 255, 255>>, <<0, 0, 0, 1, 0, 0, 0, 0>>}
 ErrorCodes == {<<0, 0, 0, 1>>, <<0, 0, 0, 2>>, <<0, 0, 0, 3>>, <<0, 0, 0, 4>>, <<0, 0, 1, 1>>, <<0, 0, 1, 2>>,
                <<0, 0, 2, 1>>, <<0, 0, 2, 2>>, <<0, 0, 2, 3>>, <<0, 0, 2, 4>>, <<255, 255, 255, 255>>}
